@@ -93,3 +93,17 @@ CHECKS["C14"] = {
     "design_ref": "DESIGN.md section 5 (C14)",
     "note": "Block level in this version; frame-level determinism (concurrency, schedules, write partition) is added with the Writer model.",
 }
+
+CHECKS["C19"] = {
+    "technique": "TLA+ frame-format spec (LZ4Frame.tla + XXH32.tla); TLC computes the header-checksum table for the descriptor "
+                 "space, the harness enumerates all 256 checksum bytes per row through ValidFrameHeader and a (fresh and Reset-"
+                 "reused) Reader; seeded random headers validated by TLC trace validation (LZ4Frame_Trace, event hdr)",
+    "text": "The acceptance rule of C19 is a finite function of (FLG, BD, size field, checksum byte). TLC evaluates the "
+            "specification's side of it for every FLG value and (quick) 16 / (thorough) all 256 BD values, with and without a "
+            "content-size field of five 64-bit values; the real code is run on all 256 checksum bytes of each row and must accept "
+            "exactly the byte TLC computed when the block-size code is defined, report the two rejections as their own errors, and "
+            "expose the size unchanged through Size (also on a Reader reused through Reset). Thorough enumerates the whole 2^24 x 6 "
+            "space; MC_LZ4Frame checks the parser used for the recorded-header validation.",
+    "design_ref": "DESIGN.md section 5 (C19)",
+    "note": "Content sizes are five representative 64-bit values, not all 2^64.",
+}
